@@ -1,3 +1,3 @@
 Require Import ZArith List. Require Extraction. Require Import ExtrOcamlBasic.
 Require Import IW.KV.Audit IW.KV.Codec IW.KV.Records.
-Extraction "m.ml" Z.add Z.mul Z.sub Z.div_eucl Z.compare Z.of_nat Z.to_nat Z.opp audit struct_db recode_all db_recs.
+Extraction "m.ml" Z.add Z.mul Z.sub Z.div_eucl Z.compare Z.of_nat Z.to_nat Z.opp audit struct_db recode_all db_recs db_canonical.
